@@ -160,6 +160,36 @@ def http_cases(ctx, work):
     return cases
 
 
+def cli_cases(ctx, work, per_scen):
+    """Command-line level: real sub-processes under the interposer, exit phase
+    included (the sharded accessor flushes in an atexit handler)."""
+    from concurrent.futures import ThreadPoolExecutor
+    from .. import cli_fault as cf
+    names = ["v2p.sharded", "compute.file", "convert.file_to_sharded", "v2p.file.gz"] if ctx.quick \
+        else list(cf.SCENARIOS)
+    out = []
+    jobs = []
+    for name in names:
+        ref = cf.run_once(work, name, None)
+        if ref["rc"] != 0:
+            raise_case = cf.to_case(ref, ref, None)
+            out.append((raise_case, {"scenario": "cli." + name, "plan": None, "calls": ref["calls"],
+                                     "exc": ref["exc"], "target_read": [], "stderr": ref["stderr_tail"]}))
+            continue
+        out.append((cf.to_case(ref, ref, None), {"scenario": "cli." + name, "plan": None, "calls": ref["calls"],
+                                                  "exc": "", "target_read": []}))
+        plans = cf.plans_for(ref["calls"], ctx.rng, limit=ctx.pick(28, None))
+        per_scen["cli." + name] = {"io_calls": len(ref["calls"]), "plans": len(plans)}
+        jobs += [(name, plan, ref) for plan in plans]
+    with ThreadPoolExecutor(max_workers=12) as ex:
+        results = list(ex.map(lambda j: cf.run_once(work, j[0], j[1]), jobs))
+    for (name, plan, ref), run in zip(jobs, results):
+        out.append((cf.to_case(run, ref, plan), {"scenario": "cli." + name, "plan": plan, "calls": run["calls"],
+                                                  "exc": run["exc"], "target_read": [], "rc": run["rc"],
+                                                  "stderr": run["stderr_tail"]}))
+    return out
+
+
 def run(ctx):
     ctx.cov["rule"] = RULE
     ctx.assumptions += [
@@ -190,6 +220,7 @@ def run(ctx):
         for plan in plans:
             runs.append(fdv.run_once(work, scen, plan))
     runs += http_cases(ctx, work)
+    runs += cli_cases(ctx, work, per_scen)
     ctx.notes["scenarios"] = per_scen
 
     cases = [c for c, _ in runs]
